@@ -26,6 +26,7 @@ mod c16;
 mod c17;
 mod c18;
 mod c19;
+mod c20;
 
 use util::*;
 
@@ -98,6 +99,7 @@ fn main() {
         "C17" => c17::run(&p, &mut rep),
         "C18" => c18::run(&p, &mut rep),
         "C19" => c19::run(&p, &mut rep),
+        "C20" => c20::run(&p, &mut rep),
         "C19CHILD" => {
             c19::child(&p);
             return;
